@@ -52,8 +52,20 @@ def iso_path_to_rr_name(iso_path, interchange_level, is_dir):
         rr_name = utils.mangle_dir_for_iso9660(iso_name.decode('utf-8'),
                                                interchange_level)
     else:
-        basename, ext = utils.mangle_file_for_iso9660(iso_name.decode('utf-8'),
-                                                      interchange_level)
+        name = iso_name.decode('utf-8')
+        version = ''
+        if interchange_level < 4:
+            # An identifier that already carries its version is mangled
+            # without it (the mangler appends one) and keeps it; otherwise the
+            # ';' would be taken for a character to replace, and identifiers
+            # that differ in the extension only got the same name.
+            (base, sep, ver) = name.rpartition(';')
+            if sep and ver.isdigit():
+                name = base
+                version = ver
+        basename, ext = utils.mangle_file_for_iso9660(name, interchange_level)
+        if version:
+            ext = ext[:ext.rindex(';') + 1] + version
         rr_name = '.'.join([basename, ext])
 
     return rr_name
